@@ -98,6 +98,9 @@ def run(chk):
             with warnings.catch_warnings():
                 warnings.simplefilter("ignore")
                 p2 = emf.InitialBHPopulation.from_IMF(imf2, cf["nbins"], cf["feh"], N0=N0, natal_kicks=False, **kw)
+            if abs(p2.Ms_lost - popr.Ms_lost) > 1e-6 * max(abs(popr.Ms_lost), 1.0) or np.any(np.abs(p2.M - popr.M) > 1e-6 * max(float(popr.M.sum()), 1.0)):
+                chk.fail("stellar mass lost and BH masses do not depend on the N0 stored in the IMF object when N0 is given", dict(label, imf=lab),
+                         dict(Ms_lost=float(p2.Ms_lost), expected=float(popr.Ms_lost), M_BH=float(p2.M.sum()), expected_M_BH=float(popr.M.sum())))
             if np.any(np.abs(p2.N - popr.N) > 1e-6 * max(float(popr.N.sum()), 1.0)) or abs(p2.Ns_lost - popr.Ns_lost) > 1e-6 * max(popr.Ns_lost, 1.0):
                 chk.fail("BH number and mass per bin equal those of the full model (IMF object whose own N0 differs from the N0 argument)",
                          dict(label, imf=lab), dict(N_BH=float(p2.N.sum()), expected=float(popr.N.sum()), Ns_lost=float(p2.Ns_lost)))
